@@ -190,6 +190,29 @@ Theorem c17_host_truncation_is_identity : forall cfg ops la, cap cfg = the_cap -
 Proof. exact host_truncation_l. Qed.
 Print Assumptions c17_host_truncation_is_identity.
 
+(* host level (addrs_manager.go): the views DirectAddrs / Addrs / HolePunchAddrs
+   contain an observed address only while the observed address manager
+   currently reports it (AddrsFor; for hole punching also Addrs(1)), and the
+   host-level monitor accepts the model's views for every sequence of manager
+   answers *)
+Theorem c17_host_views_only_while_reported : forall priv x m0 m1,
+  let v := host_view priv x m0 m1 in
+  (hv_direct v = true -> m0 = true) /\
+  (hv_addrs v = true -> m0 = true) /\
+  (hv_hole v = true -> m0 = true \/ m1 = true) /\
+  (m0 = false -> m1 = false -> v = mkHV false false false).
+Proof. exact host_views_only_while_reported_l. Qed.
+Print Assumptions c17_host_views_only_while_reported.
+
+Theorem c17_host_monitor_accepts_model : forall priv ins,
+  host_monitor (host_model_rows priv ins) = [].
+Proof. exact host_monitor_model. Qed.
+Print Assumptions c17_host_monitor_accepts_model.
+
+Example host_monitor_rejects_stale_direct_addr :
+  host_monitor [[(mkHX true true, (false, false), mkHV true false false)]] <> [].
+Proof. vm_compute. discriminate. Qed.
+
 (* ---- non-vacuity ------------------------------------------------------------ *)
 (* threshold 2, one TCP listen address (thin waist 0), three connections on it:
    conn 0 and conn 2 from the same IPv4 address, conn 1 from another *)
